@@ -22,6 +22,7 @@ def run(ctx):
     lib_schema.append_columns(ctx, P, S)
     lib_schema.collection(ctx, P)
     lib_schema.read_format(ctx, P)
+    lib_schema.dict_interchange(ctx, P, S)
     io = lambda f: any(t in f for t in ("_copy", "_load", "_dump", "_set_columns", "_takeset_columns", "_append_columns", "read_", "write_"))
     lib_schema.argname(ctx, P, tus=("tables",), funcs=io)
     lib_module.setvbuf_before_load(ctx, P)
